@@ -554,6 +554,11 @@ class Check(PropertyCheck):
                 n = r.choice([1, 2, 3, 4, 8])
                 jobs.append(("compress", ["-n%d" % n, "-1"], data, seed, None))
                 jobs.append(("compress-seq", ["-n%d" % r.choice([2, 3, 5]), "-1", "-u"], data, r.range(1, 1 << 30), None))
+                # every 100000-byte chunk expands under the initial run-length coding (runs of exactly four equal bytes): the tail of
+                # the input block is re-queued and collected by another worker (heap objects handed over through coll_q)
+                expanding = (b"aaaab" * (size // 5 + 1))[:size]
+                jobs.append(("compress-expanding", ["-n%d" % r.choice([2, 4, 8]), "-1"], expanding, r.range(1, 1 << 30), None))
+                jobs.append(("compress-expanding", ["-n%d" % r.choice([4, 8]), "-1"], expanding, r.range(1, 1 << 30), None))
                 jobs.append(("decompress", ["-d", "-n%d" % r.choice([1, 2, 4, 8])], None, r.range(1, 1 << 30), None))
                 jobs.append(("decompress-small", ["-d", "-s", "-n%d" % r.choice([2, 4])], None, r.range(1, 1 << 30), None))
                 jobs.append(("copy", ["-cdf", "-n2"], data[:150000], r.range(1, 1 << 30), None))
